@@ -248,6 +248,10 @@ func (cs *ContractSet) parseContractFile(path, pkgPath string, external bool) er
 					cur.ModAll = true
 					break
 				}
+				if strings.HasPrefix(rest, "*,") {
+					cur.ModAll = true
+					rest = strings.TrimSpace(rest[2:])
+				}
 				for _, part := range splitTopLevel(rest, ',') {
 					e, err := parseCExpr(part)
 					if err != nil {
@@ -357,13 +361,13 @@ func (cs *ContractSet) parseContractFile(path, pkgPath string, external bool) er
 			case "at":
 				// at call <callee-substring>: assert {label} expr
 				// at call <callee-substring>: ghost name = expr
-				m := regexp.MustCompile(`^call\s+(\S+?):\s*(assert|ghost)\s+(.*)$`).FindStringSubmatch(rest)
+				m := regexp.MustCompile(`^call\s+(\S+?):\s*(assert|ghostpre|ghost)\s+(.*)$`).FindStringSubmatch(rest)
 				if m == nil {
 					return fail(l, "bad at-call clause")
 				}
 				ac := AtCall{Callee: m[1], Kind: m[2]}
 				body := m[3]
-				if ac.Kind == "ghost" {
+				if ac.Kind == "ghost" || ac.Kind == "ghostpre" {
 					i := strings.Index(body, "=")
 					if i < 0 {
 						return fail(l, "bad ghost update")
